@@ -60,6 +60,17 @@ def shrink_rule(ctx, prog, rid):
                                  ((s["rv"]["k"] == "aggr" and s["rv"].get("variant") == "Some") or
                                   (s["rv"]["k"] == "use" and s["rv"]["op"].get("k") == "const" and s["rv"]["op"].get("val") == 1 and s["place"]["l"] == 0))]
                         good = bool(somes)
+                        if not somes and k.endswith("rposition"):
+                            # `|slab| !slab.is_empty()`: the predicate IS the negated emptiness test
+                            ie_dest = ie[0][1]["dest"]["l"]
+                            for blk in cb.blocks:
+                                for st in blk.stmts:
+                                    if st["k"] == "assign" and st["place"]["l"] == 0 and not st["place"]["p"] and st["rv"]["k"] == "unop" and st["rv"]["op"] == "Not":
+                                        s3 = Slice(cb).run(st["rv"]["a"])
+                                        good = ie_dest in s3["locals"] and len(list(cb.calls())) == 1
+                            if good:
+                                # the index found is turned into a length by +1 in the caller
+                                good = any(kk.endswith(("wrapping_add", "checked_add", "saturating_add")) for kk in keys) and any(c.get("val") == 1 for c in sl["consts"])
                         for sb in somes:
                             gs = switch_guards(cb, sb)
                             g = False
